@@ -319,6 +319,10 @@ func cmdCheck(args []string) int {
 				params = r.Thorough
 			}
 			eng.params = params
+			eng.maxSteps = 20_000_000
+			if v, ok := params["_maxsteps"]; ok {
+				eng.maxSteps = v
+			}
 			if v, ok := params["_maxpaths"]; ok {
 				eng.maxPaths = v
 			}
